@@ -399,6 +399,22 @@ def parents_clean(seed, nops=12):
         lines.append('OP %d parent %d %d' % (p, c, par))
         parent[c] = par
         last[c] = p
+        if r.random() < 0.3:
+            # a burst: the same peer moves the child again in each of its next frames while the
+            # others lag behind (they apply several links of the child within one of their frames)
+            for _ in range(r.randint(1, 2)):
+                lines.append('FRAME %d 1' % p)
+                cands = [q for q in range(1, k + 1) if q != c and c not in ancestors(q) and q != parent.get(c)]
+                if not cands:
+                    break
+                par = r.choice(cands)
+                lines.append('OP %d parent %d %d' % (p, c, par))
+                parent[c] = par
+            lines.append('FRAME %d 1' % p)
+            lag = [q for q in peers if q != p]
+            r.shuffle(lag)
+            for q in lag:
+                lines.append('FRAME %d 1' % q)
         if r.random() < 0.7:
             _pace(r, lines, peers)
     causal = []
@@ -662,6 +678,77 @@ def skinned_clean(seed, nops=10):
         lines.append('OP %d skin %d %s %s' % (owner, e, ','.join(map(str, js)) or '-', ','.join(map(str, ps)) or '-'))
         if r.random() < 0.8:
             _pace(r, lines, peers)
+    if r.random() < 0.6 and len(ents) >= 2:
+        # one skin shared by two entities of one peer (one glTF skin, several primitives: the same
+        # bind-pose asset handle), then ANOTHER peer re-skins one of the two: the sibling must keep
+        # its poses on every peer
+        lines.append('DRAIN 60')
+        owner = r.choice(peers)
+        mine = [e for e, o in ents if o == owner]
+        if len(mine) >= 2:
+            a, b = r.sample(mine, 2)
+            val += 2
+            shared = '%d,%d' % (val - 1, val)
+            js = [r.choice(ents)[0] for _ in range(r.randint(0, 2))]
+            lines.append('OP %d skin %d %s %s' % (owner, a, ','.join(map(str, js)) or '-', shared))
+            lines.append('OP %d skin %d %s %s' % (owner, b, ','.join(map(str, js)) or '-', shared))
+            lines.append('DRAIN 60')
+            other = r.choice([q for q in peers if q != owner])
+            val += 1
+            lines.append('OP %d skin %d %s %d' % (other, a, ','.join(map(str, js)) or '-', val))
+    lines.append('DRAIN 80')
+    return '\n'.join(lines) + '\n', {}
+
+
+def skinned_join(seed, nops=6):
+    """C16 through the joining snapshot: the host owns bare joints (spawned first) and skinned
+    entities whose joints are bare entities only — the one shape in which the real snapshot order
+    (per archetype) and the model's (per entity id) agree up to independent messages; a client joins
+    late; the host may re-skin during the join."""
+    r = random.Random(seed)
+    n = r.choice([2, 3])
+    lines = _header(r, n, [0, 8])
+    late = n - 1
+    for p in range(n):
+        if p != late:
+            lines.append('OP %d setup' % p)
+    lines.append('ROUND %d' % r.randint(6, 9))
+    h = 0
+    joints, skinned = [], []
+    for _ in range(r.randint(2, 4)):
+        h += 1
+        lines.append('OP 0 spawn %d 1' % h)
+        joints.append(h)
+    for _ in range(r.randint(1, 3)):
+        h += 1
+        lines.append('OP 0 spawn %d 1' % h)
+        skinned.append(h)
+    lines.append('DRAIN 60')
+    val = 10
+
+    def skin(e):
+        nonlocal val
+        js = [r.choice(joints) for _ in range(r.randint(0, 3))]
+        ps = []
+        for _ in range(r.randint(0, 2)):
+            val += 1
+            ps.append(val)
+        lines.append('OP 0 skin %d %s %s' % (e, ','.join(map(str, js)) or '-', ','.join(map(str, ps)) or '-'))
+    for e in skinned:
+        skin(e)
+    for _ in range(r.randint(0, nops)):
+        skin(r.choice(skinned))
+        if r.random() < 0.5:
+            lines.append('ROUND %d' % r.randint(1, 2))
+    lines.append('DRAIN 60')
+    lines.append('OP %d setup' % late)
+    k = r.randint(2, 8)
+    lines.append('ROUND %d' % k)
+    if r.random() < 0.7:
+        skin(r.choice(skinned))          # the host re-skins while the client is joining
+        lines.append('ROUND %d' % r.randint(1, 3))
+        if r.random() < 0.5:
+            skin(r.choice(skinned))
     lines.append('DRAIN 80')
     return '\n'.join(lines) + '\n', {}
 
